@@ -216,13 +216,47 @@ def kernels(rep):
                 ok2 = norm(origin(d, base)) == f"stoichiometric_matrix({fi.params[0]})"
         rep.ob("O17.1", "SHAPE", fi, ok, "_null_space(S.T)" if transposed else "_null_space(S)", what)
         rep.ob("O17.1", "SHAPE", fi, ok2, "S = stoichiometric_matrix(crn)", "the kernel is taken of the network's stoichiometric matrix")
+    # the kernel routine computes the basis from the matrix it is given: a basis taken out of a store must be keyed by the whole matrix -
+    # content AND shape (the bytes of S and of S.T coincide for a single row / column, and kernels of the two are asked one after the other)
+    from ..rules import provenance as PV
+    ns = rep.f(ST, "_null_space")
+    nd = local_defs(ns.node)
+    nrets = [r for r in returns_of(ns.node) if r.value is not None]
+    rep.need("SHAPE", len(nrets), 1, "returns of _null_space")
+    lk = PV.persistent_lookups(ns, [x for r in nrets for x in PV.all_roots(nd, r.value)], nd)
+    for r, cont, key in lk:
+        comps = PV.all_roots(nd, key) if key is not None else []
+        flat = [c for c in comps if isinstance(c, ast.Call) and isinstance(c.func, ast.Attribute) and c.func.attr in ("tobytes", "tostring", "dumps")]
+        flat += [c for c in comps if isinstance(c, ast.Call) and call_name(c) in ("bytes", "hash") and c.args]
+        okk = None
+        if flat:
+            arr = norm(flat[0].func.value) if isinstance(flat[0].func, ast.Attribute) else norm(flat[0].args[0])
+            has_shape = any(isinstance(a, ast.Attribute) and a.attr == "shape" and norm(a.value) == arr for c in comps for a in ast.walk(c))
+            okk = True if has_shape else False
+        rep.ob("O17.1", "SHAPE", ns, okk, key if key is not None else r, f"a kernel basis served from `{cont}` is keyed by the content and the shape of the matrix"
+               + ("" if okk is not False else " (the flattened bytes alone are shared by S and S.T when S is a single row or column: the wrong kernel is returned)"), node=r)
+    if not lk:
+        rep.ob("O17.1", "SHAPE", ns, True, f"{len(nrets)} returns", "the kernel basis is computed from the matrix given in this call")
     rk = rep.f(ST, "stoichiometric_rank")
     rets = returns_of(rk.node)
     ok = False
-    if len(rets) == 1:
-        mr = [c for c in ast.walk(rets[0].value) if isinstance(c, ast.Call) and call_name(c) == "matrix_rank"]
-        ok = bool(mr) and norm(origin(local_defs(rk.node), mr[0].args[0])) == f"stoichiometric_matrix({rk.params[0]})"
-    rep.ob("O17.1", "SHAPE", rk, ok, "np.linalg.matrix_rank(S)", "rank = matrix_rank(S)")
+    other = None
+    if rets:
+        def _leaves(e):
+            return _leaves(e.body) + _leaves(e.orelse) if isinstance(e, ast.IfExp) else [e]
+        rd = local_defs(rk.node)
+        ok = True
+        for r_ in rets:
+            for leaf in _leaves(r_.value):
+                leaf = origin(rd, leaf)
+                while isinstance(leaf, ast.Call) and call_name(leaf) == "int" and leaf.args:
+                    leaf = origin(rd, leaf.args[0])
+                good = isinstance(leaf, ast.Call) and call_name(leaf) == "matrix_rank" and leaf.args \
+                    and norm(origin(rd, leaf.args[0])) == f"stoichiometric_matrix({rk.params[0]})"
+                if not good:
+                    ok, other = False, leaf
+    rep.ob("O17.1", "SHAPE", rk, ok, other if other is not None else "np.linalg.matrix_rank(S)",
+           "rank = matrix_rank(S) on every path (numpy's rank is the trusted base; a rank from another routine is not vouched for)")
     sv = rep.f(ST, "_svd_null_space")
     d = local_defs(sv.node)
     rets = [r for r in returns_of(sv.node) if isinstance(r.value, ast.Name)]
